@@ -31,7 +31,7 @@ def make_cmds(rnd, kind, S, params, tier):
         if kind != "XBW":
             cmds.append("q %s extractTable" % dn)
         if kind == "PFC":
-            cmds += ["mq %s extract %d" % (dn, i) for i in ids[:12]] + ["pfc_image %s" % dn]
+            cmds += ["mq %s extract %d" % (dn, i) for i in ids[:12]] + ["pfc_image %s" % dn, "pfc_dump %s" % dn]
     return cmds, names, {"loadopt": opt}
 
 
@@ -63,6 +63,8 @@ CFG = DC.Config("C06", D.ALL_KINDS, make_cmds, nsets=(8, 50), big=True, extra_ev
                      "HASHHF/HASHRPF; numElements, maxLength, every id, members and absent strings, prefix, substring, rank and table scans "
                      "are compared between the original, both reloaded objects and the specification. PFC images are compared byte for byte "
                      "with the model's. Non-trivial = a query or load; distinct by (kind, params, S, command).")
+
+CFG.fm_text_residues = [31, 0, 1, 30, 63 % 32, 15, 31]
 
 
 def check(run, tier, seed, replay):
